@@ -2,6 +2,7 @@ CONSTANTS
   N = 2
   AMax = 2
   AMaxCG = 3
+  AMaxBs = 2
   KMax = 2
   Thin = 1
   Wide = FALSE
